@@ -190,7 +190,7 @@ func (e *env) build(v *Val) interface{} {
 	case "str":
 		return string(v.S)
 	case "bytes":
-		return []byte(v.S)
+		return e.own([]byte(v.S))
 	case "rune":
 		return rune(v.I)
 	case "sstr":
@@ -206,11 +206,11 @@ func (e *env) build(v *Val) interface{} {
 	case "sbyte":
 		return interfaces.SafeByte(v.I)
 	case "sbytes":
-		return interfaces.SafeBytes(v.S)
+		return interfaces.SafeBytes(e.own([]byte(v.S)))
 	case "rs":
 		return redact.RedactableString(v.S)
 	case "rb":
-		return redact.RedactableBytes(v.S)
+		return redact.RedactableBytes(e.own([]byte(v.S)))
 	case "safe":
 		return redact.Safe(e.build(child(v)))
 	case "unsafe":
